@@ -26,6 +26,7 @@ except ImportError:
 from functools import wraps
 import warnings
 from math import isinf
+from sys import maxsize
 
 # Audiolazy internal imports
 from .lazy_misc import blocks, rint
@@ -289,7 +290,7 @@ class Stream(meta(Iterable, metaclass=StreamMeta)):
       return constructor(self._data)
     if isinstance(n, float):
       n = rint(n) if n > 0 else 0 # So this works with -inf and nan
-    return constructor(it.islice(self._data, max(n, 0)))
+    return constructor(it.islice(self._data, min(max(n, 0), maxsize)))
 
   def copy(self):
     """
@@ -353,7 +354,8 @@ class Stream(meta(Iterable, metaclass=StreamMeta)):
     """
     if not (isinf(n) and n > 0): # limit(inf) is "no limit at all"
       self._data = it.islice(self._data,
-                             0 if isinf(n) else max(int(round(n)), 0))
+                             0 if isinf(n) else
+                             min(max(int(round(n)), 0), maxsize))
     return self
 
   def __getattr__(self, name):
